@@ -180,6 +180,10 @@ def run_c20(it):
                 res = dtw_ndim.distance(args[0], args[1], **opts)
             elif rt == "dtw_ndim.distance_fast":
                 res = dtw_ndim.distance_fast(args[0], args[1], **opts)
+            elif rt == "dtw_ndim.distance_matrix":
+                res = dtw_ndim.distance_matrix(args[0], compact=True, **opts)
+            elif rt == "dtw_ndim.distance_matrix_fast":
+                res = dtw_ndim.distance_matrix_fast(args[0], compact=True, parallel=False, **opts)
             elif rt == "dtw.distance_matrix":
                 res = dtw.distance_matrix(args[0], compact=True, parallel=call.get("parallel", False), **opts)
             elif rt == "dtw.distance_matrix[dict]":
@@ -239,7 +243,8 @@ def run_c20(it):
         # that may legitimately pick among ties (paths, merges, averages) keep the engine in the token
         base = rt.replace("[dict]", "")
         if base.replace("[use_c]", "").replace("_fast", "") in ("dtw.distance", "dtw.lb_keogh", "ed.distance",
-                                                              "dtw.distance_matrix", "dtw_ndim.distance"):
+                                                              "dtw.distance_matrix", "dtw_ndim.distance",
+                                                              "dtw_ndim.distance_matrix"):
             base = base.replace("[use_c]", "").replace("_fast", "")
         else:
             base = base + ("[c]" if call.get("use_c") else "")
